@@ -102,6 +102,12 @@ def _requests() -> dict[str, Callable[[], dict[str, Any]]]:
     def f_user_raise(x):
         raise ValueError("user function failure")
 
+    def f_user_interrupt(x):
+        raise KeyboardInterrupt("the user interrupts the conversion")      # BaseException, not Exception
+
+    def f_user_exit(x):
+        raise SystemExit(3)
+
     def f_unsupported(x):
         return unsupported_p.bind(jnp.sin(x))
 
@@ -144,6 +150,10 @@ def _requests() -> dict[str, Callable[[], dict[str, Any]]]:
         "user_raise": mk(f_user_raise),
         "user_raise_double": mk(f_user_raise, enable_double_precision=True),
         "unsupported": mk(f_unsupported),
+        "user_interrupt": mk(f_user_interrupt),
+        "user_interrupt_double": mk(f_user_interrupt, enable_double_precision=True),
+        "user_exit": mk(f_user_exit),
+        "user_exit_double": mk(f_user_exit, enable_double_precision=True),
         "fn_ok": mk(f_fn_ok),
         "fn_ok_double": mk(f_fn_ok, enable_double_precision=True),
         "fn_body_fail": mk(f_fn_body_fail),
@@ -373,9 +383,14 @@ def run_history(history: list[dict[str, Any]], tid: int) -> dict[str, Any]:
     import jax2onnx.plugins.plugin_system as ps
 
     reqs = _requests()
-    # warm-up: imports every plugin and lazily imported library module
+    # warm-up WITHOUT a conversion (the first conversion of a process is part of the property): import every
+    # plugin module and run the library eagerly once so that lazily imported modules are loaded
+    import jax.numpy as jnp
+
     try:
-        jax2onnx.to_onnx(reqs["ok"]()["fn"], [(2, 3)])
+        ps.import_all_plugins()
+        np.asarray(reqs["ok"]()["fn"](jnp.ones((2, 3), jnp.float32)))
+        np.asarray(reqs["fn_ok"]()["fn"](jnp.ones((2, 3), jnp.float32)))
     except Exception:  # noqa: BLE001
         pass
     events = []
